@@ -515,3 +515,254 @@ Proof.
   - eapply Permutation_NoDup; [apply Permutation_map, P|exact ND].
   - intros E. apply nondeg in E. destruct E as [-> ->]. apply Permutation_sym, Permutation_nil in P. destruct NE; congruence.
 Qed.
+
+(** ** C14: which value every key gets *)
+Theorem parse_render_ents fo dl es :
+  Forall (fun v => clean v = true) (pos_of es) -> Forall (fun kv => clean_entry kv = true) (kws_of es) ->
+  NoDup (keys (kws_of es)) -> es <> [EPos []] ->
+  parse_dialect fo dl (render_ents es) = bind_cast fo dl (pos_of es) (kws_of es).
+Proof. intros. unfold parse_dialect. now rewrite split_render_ents. Qed.
+
+Lemma bind_cast_inv fo dl args kws a : bind_cast fo dl args kws = Ok a ->
+  exists bound rest vals, bind_params (params dl) args kws = Ok (bound, rest) /\
+                          cast_bound fo bound = Ok vals /\ a = finish dl vals rest.
+Proof.
+  unfold bind_cast. destruct (bind_params (params dl) args kws) as [[bound rest]|]; cbn; [|discriminate].
+  destruct (negb (accept_kwargs dl) && match rest with [] => false | _ => true end); cbn; [discriminate|].
+  destruct (cast_bound fo bound) as [vals|] eqn:C; cbn; [|discriminate]. intros H; inversion H.
+  exists bound, rest, vals. split; [reflexivity|]. split; [exact C|reflexivity].
+Qed.
+Lemma bind_params_fst ps : forall args kws bound rest, bind_params ps args kws = Ok (bound, rest) -> map fst bound = ps.
+Proof.
+  induction ps as [|p r IH]; intros args kws bound rest H.
+  - destruct args; cbn in H; inversion H; reflexivity.
+  - cbn [bind_params] in H. destruct args as [|a args'].
+    + destruct (kw_get (pname p) kws).
+      * destruct (bind_params r [] (kw_del (pname p) kws)) as [[b' r']|] eqn:E; cbn in H; inversion H; subst. cbn. f_equal. eapply IH; eassumption.
+      * destruct (bind_params r [] kws) as [[b' r']|] eqn:E; cbn in H; inversion H; subst. cbn. f_equal. eapply IH; eassumption.
+    + destruct (kw_get (pname p) kws); [discriminate|].
+      destruct (bind_params r args' kws) as [[b' r']|] eqn:E; cbn in H; inversion H; subst. cbn. f_equal. eapply IH; eassumption.
+Qed.
+Lemma bind_params_omitted ps : forall args kws bound rest p,
+  bind_params ps args kws = Ok (bound, rest) -> NoDup (map pname ps) -> In p (skipn (length args) ps) ->
+  kw_get (pname p) kws = None -> In (p, None) bound.
+Proof.
+  induction ps as [|p0 r IH]; intros args kws bound rest p Hb ND HI Hk.
+  - destruct args; destruct HI.
+  - inversion ND as [|? ? Hn Hr]; subst. cbn [bind_params] in Hb. destruct args as [|a args'].
+    + cbn in HI. destruct HI as [->|HI].
+      * rewrite Hk in Hb. destruct (bind_params r [] kws) as [[b' r']|]; cbn in Hb; inversion Hb. now left.
+      * assert (N : pname p <> pname p0) by (intros E; apply Hn; rewrite <- E; now apply in_map).
+        destruct (kw_get (pname p0) kws).
+        -- destruct (bind_params r [] (kw_del (pname p0) kws)) as [[b' r']|] eqn:E; cbn in Hb; inversion Hb; subst.
+           right. apply (IH [] _ _ _ p E Hr); [exact HI|]. now rewrite kw_get_del_other.
+        -- destruct (bind_params r [] kws) as [[b' r']|] eqn:E; cbn in Hb; inversion Hb; subst.
+           right. now apply (IH [] _ _ _ p E Hr).
+    + destruct (kw_get (pname p0) kws); [discriminate|].
+      destruct (bind_params r args' kws) as [[b' r']|] eqn:E; cbn in Hb; inversion Hb; subst.
+      right. now apply (IH args' _ _ _ p E Hr).
+Qed.
+Lemma str_eqb_sym a b : str_eqb a b = str_eqb b a.
+Proof. destruct (str_eqb_spec a b), (str_eqb_spec b a); congruence. Qed.
+Lemma assoc_none_key {A} k (l : list (pystr * A)) : assoc k l = None -> forall kv, In kv l -> str_eqb k (fst kv) = false.
+Proof.
+  induction l as [|[a b] r IH]; cbn; intros H kv HI; [destruct HI|].
+  destruct (str_eqb k a) eqn:E; [discriminate|]. destruct HI as [<-|HI]; [exact E|now apply IH].
+Qed.
+Lemma filter_all {A} (f : A -> bool) l : (forall x, f x = true) -> filter f l = l.
+Proof. intros H. induction l as [|x r IH]; cbn; [reflexivity|]. rewrite H. now f_equal. Qed.
+Lemma filter_del p r kws :
+  filter (fun kv => negb (str_in (fst kv) (map pname r))) (kw_del (pname p) kws) =
+  filter (fun kv => negb (str_in (fst kv) (map pname (p :: r)))) kws.
+Proof.
+  unfold kw_del. induction kws as [|x l IHl]; [reflexivity|]. cbn [filter].
+  assert (E : str_in (fst x) (map pname (p :: r)) = str_eqb (fst x) (pname p) || str_in (fst x) (map pname r)) by reflexivity.
+  rewrite E, (str_eqb_sym (fst x)). destruct (str_eqb (pname p) (fst x)); cbn [negb orb].
+  - exact IHl.
+  - cbn [filter]. destruct (str_in (fst x) (map pname r)); cbn [negb]; [exact IHl|f_equal; exact IHl].
+Qed.
+(** what is left for **kwargs: the keyword pairs whose key is not a parameter name, in order *)
+Lemma bind_params_rest ps : forall args kws bound rest, bind_params ps args kws = Ok (bound, rest) ->
+  rest = filter (fun kv => negb (str_in (fst kv) (map pname ps))) kws.
+Proof.
+  induction ps as [|p r IH]; intros args kws bound rest H.
+  - destruct args; cbn in H; inversion H; subst. symmetry. apply filter_all. intros x. reflexivity.
+  - assert (None_case : forall (b' : unit) r', kw_get (pname p) kws = None ->
+              r' = filter (fun kv => negb (str_in (fst kv) (map pname r))) kws ->
+              r' = filter (fun kv => negb (str_in (fst kv) (map pname (p :: r)))) kws).
+    { intros _ r' Hk ->. apply filter_ext_in. intros kv HI. cbn. rewrite kw_get_assoc in Hk.
+      rewrite str_eqb_sym, (assoc_none_key _ _ Hk kv HI). reflexivity. }
+    cbn [bind_params] in H. destruct args as [|a args'].
+    + destruct (kw_get (pname p) kws) eqn:Hk.
+      * destruct (bind_params r [] (kw_del (pname p) kws)) as [[b' r']|] eqn:E; cbn in H; inversion H; subst.
+        rewrite (IH _ _ _ _ E). apply filter_del.
+      * destruct (bind_params r [] kws) as [[b' r']|] eqn:E; cbn in H; inversion H; subst.
+        apply (None_case tt rest eq_refl). eapply IH; eassumption.
+    + destruct (kw_get (pname p) kws) eqn:Hk; [discriminate|].
+      destruct (bind_params r args' kws) as [[b' r']|] eqn:E; cbn in H; inversion H; subst.
+      apply (None_case tt rest eq_refl). eapply IH; eassumption.
+Qed.
+
+Definition cast_opt (fo : float_oracle) (p : param) (ov : option pystr) : option pyval :=
+  match ov with
+  | Some v => match cast fo (ptype p) v with Ok x => Some x | Err _ => None end
+  | None => pdefault p
+  end.
+Lemma cast_bound_spec fo bound : forall vals, cast_bound fo bound = Ok vals ->
+  vals = map (fun b => (pname (fst b), cast_opt fo (fst b) (snd b))) bound.
+Proof.
+  induction bound as [|[p [v|]] r IH]; intros vals H; cbn [cast_bound] in H.
+  - inversion H; reflexivity.
+  - destruct (cast fo (ptype p) v) as [x|] eqn:C; cbn in H; [|discriminate].
+    destruct (cast_bound fo r) as [rest|]; cbn in H; inversion H; subst. cbn. rewrite C. f_equal. now apply IH.
+  - destruct (cast_bound fo r) as [rest|]; cbn in H; inversion H; subst. cbn. f_equal. now apply IH.
+Qed.
+Lemma reserved_keys dl vals a : In a (map fst (reserved_items dl vals)) -> In a (map (long_name dl) (map fst vals)).
+Proof.
+  unfold reserved_items. induction vals as [|[k [v|]] r IH]; cbn; intros H; [assumption| |].
+  - destruct H as [<-|H]; [now left|right; now apply IH].
+  - right. now apply IH.
+Qed.
+Lemma reserved_assoc dl vals k ov : NoDup (map (long_name dl) (map fst vals)) -> In (k, ov) vals ->
+  assoc (long_name dl k) (reserved_items dl vals) = ov.
+Proof.
+  unfold reserved_items. induction vals as [|[k0 o0] r IH]; intros ND HI; [destruct HI|].
+  cbn [map fst] in ND. inversion ND as [|? ? Hn Hr]; subst. cbn [flat_map snd fst]. destruct HI as [E|HI].
+  - inversion E; subst. destruct ov as [x|]; cbn.
+    + unfold long_name. now rewrite str_eqb_refl.
+    + apply assoc_notin. intros HI. apply Hn. now apply reserved_keys.
+  - assert (N : long_name dl k <> long_name dl k0).
+    { intros E. apply Hn. rewrite <- E. apply in_map. change k with (fst (k, ov)). now apply in_map. }
+    destruct o0 as [x|]; cbn; [|now apply IH].
+    unfold long_name in *. destruct (str_eqb_spec (rename_key (rename dl) k) (rename_key (rename dl) k0)); [contradiction|now apply IH].
+Qed.
+Lemma reserved_nodup dl vals : NoDup (map (long_name dl) (map fst vals)) -> NoDup (map fst (reserved_items dl vals)).
+Proof.
+  unfold reserved_items. induction vals as [|[k0 o0] r IH]; cbn; intros ND; [constructor|].
+  inversion ND as [|? ? Hn Hr]; subst. destruct o0; cbn; [|now apply IH].
+  constructor; [|now apply IH]. intros HI. apply Hn. now apply reserved_keys.
+Qed.
+Lemma assoc_rev {A} k (l : list (pystr * A)) : NoDup (map fst l) -> assoc k (rev l) = assoc k l.
+Proof.
+  intros ND. symmetry. apply assoc_perm; [apply Permutation_rev|assumption].
+Qed.
+
+(** the core: the attribute under a parameter's long name *)
+Theorem bind_value fo dl args kws a p ov bound rest :
+  NoDup (long_names dl) -> bind_cast fo dl args kws = Ok a ->
+  bind_params (params dl) args kws = Ok (bound, rest) -> In (p, ov) bound ->
+  aget (long_name dl (pname p)) a =
+    match cast_opt fo p ov with
+    | Some x => Some x
+    | None => assoc (long_name dl (pname p)) (rev (free_items rest))
+    end.
+Proof.
+  intros NDl Ha Hb HI. destruct (bind_cast_inv _ _ _ _ _ Ha) as [bound' [rest' [vals [Hb' [Hc ->]]]]].
+  rewrite Hb in Hb'. inversion Hb'; subst bound' rest'. clear Hb'.
+  pose proof (cast_bound_spec _ _ _ Hc) as Hv. pose proof (bind_params_fst _ _ _ _ _ Hb) as Hf.
+  assert (Hn : map fst vals = pnames dl).
+  { rewrite Hv, map_map. cbn. unfold pnames. rewrite <- Hf. now rewrite map_map. }
+  assert (ND : NoDup (map (long_name dl) (map fst vals))) by (rewrite Hn; exact NDl).
+  unfold finish. rewrite aget_aupdate, assoc_rev by now apply reserved_nodup.
+  rewrite (reserved_assoc dl vals (pname p) (cast_opt fo p ov) ND).
+  - destruct (cast_opt fo p ov); [reflexivity|]. rewrite aget_aupdate. cbn. destruct (assoc _ _); reflexivity.
+  - rewrite Hv. apply in_map_iff. exists (p, ov). split; [reflexivity|assumption].
+Qed.
+
+Lemma long_names_eq dl : long_names dl = map (long_name dl) (pnames dl).
+Proof. reflexivity. Qed.
+(** reserved keys that are written: numeric keys are floats of the oracle's value, text keys the text *)
+Theorem bind_numeric fo dl args kws a p v :
+  NoDup (pnames dl) -> NoDup (long_names dl) -> bind_cast fo dl args kws = Ok a ->
+  (exists i, nth_error (params dl) i = Some p /\ nth_error args i = Some v) \/
+  (In p (skipn (length args) (params dl)) /\ kw_get (pname p) kws = Some v) ->
+  match ptype p with
+  | TFloat => exists r, fo v = Some r /\ aget (long_name dl (pname p)) a = Some (VFlt r)
+  | TStr => aget (long_name dl (pname p)) a = Some (VStr v)
+  end.
+Proof.
+  intros NDp NDl Ha Hw. destruct (bind_cast_inv _ _ _ _ _ Ha) as [bound [rest [vals [Hb [Hc _]]]]].
+  destruct (bind_params_bound _ _ _ _ _ Hb NDp) as [B1 B2].
+  assert (HI : In (p, Some v) bound).
+  { destruct Hw as [[i [H1 H2]]|[H1 H2]]; [now apply (B1 i)|now apply B2]. }
+  pose proof (bind_value fo dl args kws a p (Some v) bound rest NDl Ha Hb HI) as Hv. cbn in Hv.
+  destruct (ptype p) eqn:T; cbn in Hv.
+  - destruct (fo v) as [r|] eqn:F.
+    + exists r. split; [reflexivity|exact Hv].
+    + rewrite (cast_bound_err fo bound p v HI T F) in Hc. discriminate.
+  - exact Hv.
+Qed.
+(** reserved keys that are omitted take the table's default (absent when the default is None and no
+    free key has that long name) *)
+Theorem bind_defaults fo dl args kws a p :
+  NoDup (pnames dl) -> NoDup (long_names dl) -> bind_cast fo dl args kws = Ok a ->
+  In p (skipn (length args) (params dl)) -> kw_get (pname p) kws = None ->
+  (pdefault p = None -> ~ In (long_name dl (pname p)) (keys kws)) ->
+  aget (long_name dl (pname p)) a = pdefault p.
+Proof.
+  intros NDp NDl Ha Hs Hk Hfree. destruct (bind_cast_inv _ _ _ _ _ Ha) as [bound [rest [vals [Hb [Hc _]]]]].
+  pose proof (bind_params_omitted _ _ _ _ _ p Hb NDp Hs Hk) as HI.
+  rewrite (bind_value fo dl args kws a p None bound rest NDl Ha Hb HI). cbn.
+  destruct (pdefault p) as [d|] eqn:D; [reflexivity|].
+  apply assoc_notin. intros HIn. apply (Hfree eq_refl).
+  rewrite map_rev in HIn. apply in_rev in HIn. unfold free_items in HIn. rewrite map_map in HIn. cbn in HIn.
+  rewrite (bind_params_rest _ _ _ _ _ Hb) in HIn. apply in_map_iff in HIn. destruct HIn as [kv [E HIn]].
+  apply filter_In in HIn. unfold keys. rewrite <- E. apply in_map. apply HIn.
+Qed.
+(** free keys are kept verbatim as text (side condition: the key is neither a short nor a long
+    reserved name) *)
+Theorem bind_free fo dl args kws a k v :
+  NoDup (long_names dl) -> bind_cast fo dl args kws = Ok a -> NoDup (keys kws) -> In (k, v) kws ->
+  ~ In k (pnames dl) -> ~ In k (long_names dl) -> aget k a = Some (VStr v).
+Proof.
+  intros NDl Ha NDk HI Hp Hl. destruct (bind_cast_inv _ _ _ _ _ Ha) as [bound [rest [vals [Hb [Hc ->]]]]].
+  pose proof (cast_bound_spec _ _ _ Hc) as Hv. pose proof (bind_params_fst _ _ _ _ _ Hb) as Hf.
+  assert (Hn : map fst vals = pnames dl).
+  { rewrite Hv, map_map. cbn. unfold pnames. rewrite <- Hf. now rewrite map_map. }
+  unfold finish. rewrite aget_aupdate.
+  rewrite assoc_notin.
+  2:{ rewrite map_rev. intros HIn. apply in_rev in HIn. apply reserved_keys in HIn. rewrite Hn in HIn. now apply Hl. }
+  rewrite aget_aupdate. 
+  assert (HR : In (k, v) rest).
+  { rewrite (bind_params_rest _ _ _ _ _ Hb). apply filter_In. split; [assumption|]. cbn.
+    destruct (str_in k (map pname (params dl))) eqn:E; [|reflexivity]. apply str_in_In in E. contradiction. }
+  assert (NDr : NoDup (map fst (free_items rest))).
+  { unfold free_items. rewrite map_map. cbn. rewrite (bind_params_rest _ _ _ _ _ Hb). now apply NoDup_keys_filter. }
+  rewrite assoc_rev by assumption.
+  rewrite (assoc_in k (VStr v)); [reflexivity|assumption|].
+  unfold free_items. apply in_map_iff. exists (k, v). split; [reflexivity|assumption].
+Qed.
+
+(** the generated tables: documented defaults, for every oracle *)
+Theorem defaults_generated fo name :
+  bind_cast fo graph_base_dialect [name] [] =
+    Ok [(S "fragname", VStr name); (S "charge", VFlt (S "0.0")); (S "weight", VFlt (S "1.0"))] /\
+  bind_cast fo fragment_node_dialect [] [] = Ok [(S "weight", VFlt (S "1.0"))].
+Proof. split; reflexivity. Qed.
+Lemma nodup_generated :
+  NoDup (pnames graph_base_dialect) /\ NoDup (long_names graph_base_dialect) /\
+  NoDup (pnames fragment_node_dialect) /\ NoDup (long_names fragment_node_dialect).
+Proof. repeat split; apply nodupb_NoDup; vm_compute; reflexivity. Qed.
+
+(** ** non-vacuity *)
+Definition fo_demo : float_oracle := fo_of_table [(S "+1", Some (S "1.0")); (S "1e-1", Some (S "0.1")); (S "abc", None)].
+Example pos_kw_example :
+  parse_dialect fo_demo graph_base_dialect (S "A;+1;1e-1;mass=72") =
+    Ok [(S "mass", VStr (S "72")); (S "fragname", VStr (S "A")); (S "charge", VFlt (S "1.0")); (S "weight", VFlt (S "0.1"))] /\
+  parse_dialect fo_demo graph_base_dialect (S "fragname=A;q=+1;w=1e-1;mass=72") =
+    parse_dialect fo_demo graph_base_dialect (S "A;+1;1e-1;mass=72") /\
+  render [S "A"; S "+1"; S "1e-1"] [(S "mass", S "72")] = S "A;+1;1e-1;mass=72".
+Proof. repeat split; vm_compute; reflexivity. Qed.
+Example perm_example :
+  res_equiv (parse_dialect fo_demo fragment_node_dialect (S "x=R;k=v;w=+1"))
+            (parse_dialect fo_demo fragment_node_dialect (S "w=+1;x=R;k=v")) /\
+  parse_dialect fo_demo fragment_node_dialect (S "w=+1;x=R;k=v") =
+    Ok [(S "k", VStr (S "v")); (S "weight", VFlt (S "1.0")); (S "chiral", VStr (S "R"))].
+Proof. split; [intros k; vm_compute; reflexivity|vm_compute; reflexivity]. Qed.
+Example errors_example :
+  parse_dialect fo_demo graph_base_dialect (S "A;q=1;a=b=c") = Err (ESyntax (S "toomany_eq")) /\
+  parse_dialect fo_demo graph_base_dialect (S "A;+1;+1;+1") = Err (ESyntax (S "bind")) /\
+  parse_dialect fo_demo graph_base_dialect (S "A;+1;q=+1") = Err (ESyntax (S "bind")) /\
+  parse_dialect fo_demo graph_base_dialect (S "A;foo=bar;q=abc") = Err EType /\
+  parse_dialect fo_demo fragment_node_dialect (S "abc") = Err EType.
+Proof. repeat split; vm_compute; reflexivity. Qed.
